@@ -83,6 +83,7 @@ pub struct Truth {
     pub class_marker_late: bool,
     pub class_entity: bool,
     pub class_fence_in_comment: bool,
+    pub class_go_directive: bool,
     pub class_fence_gap_in_block_comment: bool,
 }
 
@@ -100,6 +101,7 @@ impl Truth {
             class_marker_late: false,
             class_entity: false,
             class_fence_in_comment: false,
+            class_go_directive: false,
             class_fence_gap_in_block_comment: false,
             multibyte_before_prose: false,
             seen_multibyte: false,
@@ -311,6 +313,15 @@ fn render_source(spec: &'static LangSpec, segs: &[Seg], crlf: bool) -> Truth {
                 let ig = ignore.map(|i| IGNORE_MARKERS[i as usize % IGNORE_MARKERS.len()]);
                 if st < nline {
                     let leader = spec.line[st];
+                    // Go: a compiler directive that opens the (merged) comment is not prose; the
+                    // prose lines after it in the same comment are, at their true offsets
+                    if spec.id == "go" && *stars && ignore.is_none() && !last_was_comment && leader == "//" {
+                        t.raw(indent(*ind));
+                        t.raw(leader);
+                        t.nonprose(["go:noinline", "go:build linux", "go:generate zqxv -type=Zqbar"][lines.len() % 3]);
+                        t.raw(nl);
+                        t.class_go_directive = true;
+                    }
                     for (li, line) in lines.iter().enumerate() {
                         t.raw(indent(*ind));
                         t.raw(leader);
@@ -763,6 +774,7 @@ fn test_file_via(spec: &FileSpec, ctx: &mut CaseCtx, server_wrappers: bool, by_f
     ctx.class_if(truth.class_marker_late, "ignore_marker_not_at_the_start_of_its_comment");
     ctx.class_if(truth.class_entity, "character_reference");
     ctx.class_if(truth.class_fence_in_comment, "fenced_example_in_comment");
+    ctx.class_if(truth.class_go_directive, "go_directive_opens_a_comment_with_prose");
     ctx.class_if(truth.class_fence_gap_in_block_comment, "empty_line_inside_fence_in_unstarred_block_comment");
     ctx.class_if(server_wrappers, "server_wrappers");
     if truth.multibyte_before_prose && truth.prose_segments >= 2 {
@@ -925,6 +937,7 @@ pub fn run(run: &mut Run) {
     run.require_class("files_with_ground_truth", "blanks_around_delimiter_line", (n / 100) as u64);
     run.require_class("files_with_ground_truth", "character_reference", (n / 200) as u64);
     run.require_class("files_with_ground_truth", "fenced_example_in_comment", (n / 20) as u64);
+    run.require_class("files_with_ground_truth", "go_directive_opens_a_comment_with_prose", (n / 400) as u64);
     run.require_class("files_with_ground_truth", "empty_line_inside_fence_in_unstarred_block_comment", (n / 400) as u64);
 }
 
